@@ -3,5 +3,6 @@ CONSTANTS
   Alphabet = {0, 255, 1}
   MaxLen = 1
   MaxFrames = 2
+  Ips <- IpsT
 INVARIANTS WriterOK ReaderOK
 CHECK_DEADLOCK FALSE
